@@ -92,6 +92,9 @@ def rank_range(cn, args):
     raise Unknown('rank range step')
 
 
+CMPF = {'Lt': lambda a, b: a < b, 'LtE': lambda a, b: a <= b, 'Gt': lambda a, b: a > b, 'GtE': lambda a, b: a >= b, 'Eq': lambda a, b: a == b, 'NotEq': lambda a, b: a != b}
+
+
 def eval_bound(cn, t, R_, k_):
     if is_num(t):
         return t[1]
@@ -100,6 +103,20 @@ def eval_bound(cn, t, R_, k_):
     if t[0] == 'bin' and t[1] in ('Add', 'Sub'):
         a, b = eval_bound(cn, t[2], R_, k_), eval_bound(cn, t[3], R_, k_)
         return a + b if t[1] == 'Add' else a - b
+    if t[0] == 'bool' and t[1] in ('or', 'and'):
+        v = None
+        for x in t[2]:                      # Python's value semantics on integers (0 is falsy)
+            v = eval_bound(cn, x, R_, k_)
+            if bool(v) == (t[1] == 'or'):
+                return v
+        return v
+    if t[0] == 'ite':
+        c = t[1]
+        if c[0] == 'cmp' and c[1] in CMPF:
+            return eval_bound(cn, t[2] if CMPF[c[1]](eval_bound(cn, c[2], R_, k_), eval_bound(cn, c[3], R_, k_)) else t[3], R_, k_)
+        if c[0] == 'not':
+            return eval_bound(cn, ('ite', c[1], t[3], t[2]), R_, k_)
+        return eval_bound(cn, t[2] if eval_bound(cn, c, R_, k_) else t[3], R_, k_)
     txt = cn.pstr(t)
     if txt == 'R':
         return R_
